@@ -73,3 +73,38 @@ def extend_query_args(u, args):
     if len(args) != 1:
         raise ValueError("Either kwargs or single query parameter must be present")
     return extend_query_str(u, args[0])
+
+
+# ---------------------------------------------------------------- serialisation of pairs (C12)
+
+def _text(v):
+    return v if isinstance(v, str) else query_var(v)
+
+
+def str_query_from_pairs(items):
+    """C12: the pairs in order, 'key=value' joined by '&'; key and value each quoted as a query part
+    (so the pair delimiters inside them are escaped); ints by str()"""
+    out = ""
+    first = True
+    for i in range(len(items)):
+        k = items[i][0]
+        v = items[i][1]
+        piece = QUERY_PART_QUOTER(k) + "=" + QUERY_PART_QUOTER(_text(v))
+        out = piece if first else out + "&" + piece
+        first = False
+    return out
+
+
+def str_query_from_seq_pairs(items):
+    """C12: like str_query_from_pairs, a list or tuple value repeats the key once per element"""
+    out = ""
+    first = True
+    for i in range(len(items)):
+        k = items[i][0]
+        val = items[i][1]
+        vals = val if (not isinstance(val, str) and isinstance(val, (list, tuple))) else (val,)
+        for j in range(len(vals)):
+            piece = QUERY_PART_QUOTER(k) + "=" + QUERY_PART_QUOTER(_text(vals[j]))
+            out = piece if first else out + "&" + piece
+            first = False
+    return out
